@@ -540,3 +540,59 @@ package gomavlib
 //@   requires h != nil && h.terminate != nil
 //@   ensures  logLen() == 2 && logIs(0, "close", "terminate") && logIs(1, "recv", "done")
 //@   modifies ghost:log
+
+// ---------------------------------------------------------------- endpoints: who gets one channel at a time, readiness after initialize (C14)
+
+//@ func (*endpointClient).oneChannelAtAtime
+//@   ensures  [clients-have-one-channel-at-a-time] res
+//@   modifies nothing
+
+//@ func (*endpointSerial).oneChannelAtAtime
+//@   ensures  [serial-has-one-channel-at-a-time] res
+//@   modifies nothing
+
+//@ func (*endpointServer).oneChannelAtAtime
+//@   ensures  [servers-give-every-peer-its-own-channel] !res
+//@   modifies nothing
+
+//@ func (*endpointCustom).oneChannelAtAtime
+//@   ensures  res
+//@   modifies nothing
+
+//@ func (*endpointUDPBroadcast).oneChannelAtAtime
+//@   ensures  res
+//@   modifies nothing
+
+//@ func (*endpointClient).initialize
+//@   ghostlog net.SplitHostPort, gomavlib.endpointClientConf.getAddress
+//@   requires e != nil && e.conf != nil
+//@   ensures  [malformed-address-refused] logRetErr(1) != nil ==> err != nil
+//@   ensures  [ready-after-success] err == nil ==> e.ctx != nil && logRetErr(1) == nil
+//@   ensures  [address-checked-is-the-configured-one] logCallee(0, "gomavlib.endpointClientConf.getAddress") && logCallee(1, "net.SplitHostPort")
+//@   modifies e.ctx, e.ctxCancel, ghost:log
+
+//@ func (*endpointClient).close
+//@   requires e != nil
+//@   ensures  [cancels-pending-connects-and-waits] logLen() == 1 && logCallee(0, "call:func-value")
+//@   modifies ghost:log
+
+//@ func (*endpointSerial).close
+//@   requires e != nil
+//@   ensures  logLen() == 1 && logCallee(0, "call:func-value")
+//@   modifies ghost:log
+
+//@ func (*endpointServer).initialize
+//@   ghostlog net.SplitHostPort, net.ResolveUDPAddr, github.com/pion/transport/v2/udp.Listen, net.Listen, gomavlib.endpointServerConf.getAddress, gomavlib.endpointServerConf.isUDP
+//@   requires e != nil && e.conf != nil
+//@   ensures  [ready-after-success] err == nil ==> e.listener != nil && e.terminate != nil
+//@   ensures  [malformed-address-refused] logRetErr(1) != nil ==> err != nil && logLen() == 2
+//@   ensures  [listen-failure-is-returned] logLen() >= 3 && logRetErr(logLen()-1) != nil ==> err == logRetErr(logLen()-1)
+//@   ensures  [udp-or-tcp-as-configured] err == nil ==> logCallee(2, "gomavlib.endpointServerConf.isUDP") &&
+//@              (logRetBool(2) ==> logCallee(logLen()-1, "github.com/pion/transport/v2/udp.Listen")) && (!logRetBool(2) ==> logCallee(logLen()-1, "net.Listen"))
+//@   modifies e.listener, e.terminate, ghost:log
+
+//@ func (*endpointServer).close
+//@   ghostlog net.Listener.Close
+//@   requires e != nil && e.terminate != nil && e.listener != nil
+//@   ensures  [wakes-the-provider-and-stops-accepting] logLen() == 2 && logIs(0, "close", "terminate") && logCallee(1, "net.Listener.Close")
+//@   modifies ghost:log
